@@ -3,6 +3,7 @@ package streamsim
 import (
 	"bytes"
 	"encoding/base64"
+	"encoding/hex"
 	"hash/fnv"
 	"io"
 	"net/http"
@@ -297,7 +298,15 @@ func runFuzz(t *simrt.Tape, keep bool) simrt.Outcome {
 		data = mutate(r, doc, other)
 	}
 	parser := []string{"gob", "csv", "json", "auto", "targets-http", "targets-json"}[t.Choose(6)]
-	if !t.Prob(1, 3) {
+	fromCorpus := len(corpus) > 0 && t.Prob(1, 300)
+	if fromCorpus {
+		// an input that once broke a parser, unchanged (findings/*.bin)
+		c := corpus[t.Choose(len(corpus))]
+		data, _ = hex.DecodeString(c.hex)
+		kind, parser, origin = c.kind, c.parser, "corpus document "+c.name
+		r.stats["fault.corpus-document"]++
+	}
+	if !fromCorpus && !t.Prob(1, 3) {
 		// most of the time the parser that is meant for this kind of document
 		switch kind {
 		case "results-gob":
